@@ -112,8 +112,9 @@ def parse_text(txt):
         if head[0] == "memcheck" and head[1].startswith("syscall-param"):
             # bytes handed to a system call (an MPI send): MPI's own headers / padding are uninitialised all the time; the report concerns the
             # library only if the storage itself was allocated on behalf of library code
+            # (a buffer of Open MPI's own free lists, allocated during MPI_Init called from main(), is not the library's storage either)
             aowner, _ = classify(alloc_frames)
-            if aowner == "external":
+            if aowner != "library":
                 owner = "external"
         if head[0] == "ubsan" and not frames:
             # no stack trace printed: fall back to the source location
